@@ -2,7 +2,7 @@
    proofs in Dad/ShortCircuitProofs.v. *)
 From Coq Require Import ZArith List Bool.
 Require Import V.Lib.Val V.Lib.Result V.Dad.ShortCircuitModel V.Dad.ShortCircuitProofs V.Dad.ShortCircuitGraph.
-Require Import V.Dad.ShortCircuitDriver V.Dad.ShortCircuitSound.   (* the stream chains of tools/props/c25.py evaluates the model of the driver *)
+Require Import V.Dad.ShortCircuitDriver V.Dad.ShortCircuitSound V.Dad.ShortCircuitRoute.   (* the stream chains of tools/props/c25.py evaluates the model of the driver *)
 Import ListNotations.
 Open Scope Z_scope.
 
@@ -85,6 +85,16 @@ Theorem C25_the_passes_keep_every_walk_of_a_chain : forall spec fuel, chain_wf s
   same_walks (chain_graph spec) 0 (fst (struct fuel (chain_graph spec) (Z.of_nat (length spec)) 0)) (snd (struct fuel (chain_graph spec) (Z.of_nat (length spec)) 0)).
 Proof. exact struct_keeps_chain_walks. Qed.
 Print Assumptions C25_the_passes_keep_every_walk_of_a_chain.
+(* same_walks says more than "the same exits": a walk of the chain that ends within n steps is matched by a walk of the result that
+   ends within the same n steps.  So what the stream observes - the result of the passes unfolded into a tree (blocks + 2) deep and
+   routed under an assignment of the comparisons - is the exit of the chain, for every chain as above that ends within (blocks + 1)
+   steps (every chain without a cycle does; the premise is a computation on the chain alone) *)
+Theorem C25_the_observed_route_is_the_chains : forall spec env x, chain_wf spec -> spec <> [] ->
+  walk (S (length spec)) (chain_graph spec) env 0 = Some x ->
+  let r := struct (S (length spec)) (chain_graph spec) (Z.of_nat (length spec)) 0 in
+  route env (tree_of (S (S (length spec))) (fst r) (snd r)) = -1 - x.
+Proof. exact observed_route_is_the_chains. Qed.
+Print Assumptions C25_the_observed_route_is_the_chains.
 Example C25_the_passes_nonvacuous :
   edges_ok (chain_graph d41_spec) /\ unused_from (chain_graph d41_spec) 3 /\ no_pred (chain_graph d41_spec) 0 /\
   snd (struct 4 (chain_graph d41_spec) 3 0) = 4.
